@@ -31,6 +31,8 @@ type c05Case struct {
 	IntAsInteger bool `json:"int_as_integer,omitempty"`
 	// Ret: what the handler returns for this request - "" (a message) | error | both (a message AND an error)
 	Ret string `json:"ret,omitempty"`
+	// Tracer: a tracer is installed on the server
+	Tracer bool `json:"tracer,omitempty"`
 }
 
 // intPositions: argument indexes of the request that the positional schema types as integers.
@@ -108,6 +110,9 @@ func evalC05(c c05Case) (fl *Failure) {
 	srv, rec := newRecServer()
 	srv.SetAuthCommandHandler(rec)
 	rec.ResultFn = getModeResult(in.GetMode, in.GetValue)
+	if c.Tracer {
+		srv.SetTracer(doubles.NewTracer(&connsim.Log{}))
+	}
 	var reqs [][]resp.Bin
 	if c.PreSelect != nil {
 		reqs = append(reqs, []resp.Bin{resp.Bin("SELECT"), resp.Bin(strconv.Itoa(*c.PreSelect))})
@@ -535,11 +540,12 @@ func TestC05(t *testing.T) {
 				n := rapid.IntRange(0, 15).Draw(rt, "seldb")
 				c.PreSelect = &n
 			}
+			c.Tracer = rapid.IntRange(0, 3).Draw(rt, "tracer") == 0
 			if in.Reply == cmdspec.ReplyPassThrough {
 				c.Ret = rapid.SampledFrom([]string{"", "", "", "", "", "error", "both"}).Draw(rt, "ret")
 			}
 			canon, _ := encodeReqs([][]resp.Bin{c.Args})
-			canon = append(canon, []byte(fmt.Sprint(in.GetMode, in.GetValue, c.IntAsInteger, c.Ret))...)
+			canon = append(canon, []byte(fmt.Sprint(in.GetMode, in.GetValue, c.IntAsInteger, c.Ret, c.Tracer))...)
 			classes := []string{"cmd:" + name}
 			for _, f := range in.Features {
 				classes = append(classes, "feature:"+f)
@@ -586,6 +592,10 @@ func TestC05(t *testing.T) {
 
 	h.Rapid("app-executors", h.N(2000, 100000), func(rt *rapid.T) {
 		name := rapid.StringMatching(`[A-Z][A-Z0-9._]{1,10}`).Draw(rt, "appname")
+		if rapid.IntRange(0, 3).Draw(rt, "longname") == 0 {
+			// names longer than any built-in command name, single characters, names with punctuation
+			name = rapid.SampledFrom([]string{"APP.SESSION.TOUCH", "MODULE.VERY_LONG_COMMAND_NAME.V2", "X", "A-B", "ZREVRANGEBYSCOREX", "CLUSTER.SLOTS.REBALANCE.NOW.PLEASE.1234567890"}).Draw(rt, "longappname")
+		}
 		if cmdspec.Has(name) {
 			name = "X" + name
 		}
